@@ -377,7 +377,15 @@ def work(job):
     for k, case in enumerate(cases()):
         if k % nslots != idx:
             continue
-        res = judge(case)
+        # FAILURE PATHS: every third case is additionally built from a model that was parsed by a parser instance which had
+        # failed on another document before (two kinds of failure); the outcome must be the same
+        if (k // nslots) % 3 == 0:
+            B.EXTRA_FORMS.add('reused-parser')
+            part.extra['cases_also_built_from_a_reused_parser'] += 1
+        try:
+            res = judge(case)
+        finally:
+            B.EXTRA_FORMS.discard('reused-parser')
         part.evaluations += 1
         part.states += 1
         part.transitions += 1
@@ -389,6 +397,7 @@ def work(job):
             part.violation(key, what, case)
         if k % 1201 == 5:
             part.sample(case)
+    B.cleanup_reuse()
     return part
 
 
